@@ -456,6 +456,15 @@ Section ProcessProofs.
     split; intros; rewrite Ho; reflexivity.
   Qed.
 
+  (* hence, for clients that open the request path in the caller's directory, no path hypothesis is needed *)
+  Theorem trace_refines_nocache_caller fixed : (forall pkg d, opendir pkg d = d) -> forall ops st,
+    nocache st -> (forall b, In (NewClient b) ops -> b = false) -> Forall refines_event (trace fixed st ops).
+  Proof. intros Ho ops st Hn Hb. apply trace_refines_nocache; auto. now apply caller_dir_resolves_same. Qed.
+
+  Theorem trace_refines_sound_key_caller fixed : (forall pkg d, opendir pkg d = d) -> key_sound -> forall ops d a f,
+    Forall refines_event (trace fixed (init d a f) ops).
+  Proof. intros Ho Hk ops d a f. apply trace_refines_sound_key_init; auto. now apply caller_dir_resolves_same. Qed.
+
   (* every path absolute => every event resolves the same for caller and program *)
   Lemma absolute_resolves_same fixed : (forall d p, resolve d p = p) -> forall ops st,
     Forall resolves_same (trace fixed st ops).
@@ -486,7 +495,21 @@ Proof.
   intros Hc ops d a f. apply trace_refines_sound_key; [now apply content_key_sound|apply init_entries_ok].
 Qed.
 
-(* ---------- the path-keyed cache of the code under test ---------- *)
+(* the current clients: request path opened in the caller's directory *)
+Definition trace_refines_nocache_current C R run hash resolve runh K keq keyof fixed :=
+  trace_refines_nocache_caller C R run hash resolve caller_opendir runh K keq keyof fixed (fun _ _ => eq_refl).
+Definition trace_refines_sound_key_current C R run hash resolve runh K keq keyof fixed :=
+  trace_refines_sound_key_caller C R run hash resolve caller_opendir runh K keq keyof fixed (fun _ _ => eq_refl).
+
+Theorem trace_refines_content_key_caller C R (run : C -> option R) hash resolve runh (ceq : C -> C -> bool) fixed :
+  (forall a b, ceq a b = true -> a = b) -> forall ops d a f,
+  Forall (refines_event C R run resolve runh (Z * option C))
+         (trace C R run hash resolve caller_opendir runh (Z * option C) (content_keq ceq) (content_key hash) fixed (init d a f) ops).
+Proof.
+  intros Hc ops d a f. apply trace_refines_content_key; auto. apply caller_dir_resolves_same. reflexivity.
+Qed.
+
+(* ---------- the path-keyed cache of the code under test (request paths opened in the caller's directory) ---------- *)
 Section PathKeyed.
   Variables C R : Type.
   Variable run : C -> option R.
@@ -496,13 +519,13 @@ Section PathKeyed.
 
   Notation state := (state C R Z).
   Notation event := (event C R Z).
-  Notation step := (step C R run hash resolve code_opendir runh Z Z.eqb (path_key hash)).
-  Notation trace := (trace C R run hash resolve code_opendir runh Z Z.eqb (path_key hash)).
+  Notation step := (step C R run hash resolve caller_opendir runh Z Z.eqb (path_key hash)).
+  Notation trace := (trace C R run hash resolve caller_opendir runh Z Z.eqb (path_key hash)).
   Notation expected := (expected C R run).
   Notation refines_event := (refines_event C R run resolve runh Z).
-  Notation resolves_same := (resolves_same C R resolve code_opendir Z).
+  Notation resolves_same := (resolves_same C R resolve caller_opendir Z).
   Notation cli_run := (cli_run C R run hash resolve Z).
-  Notation hip_get := (hip_get C R resolve code_opendir runh Z).
+  Notation hip_get := (hip_get C R resolve caller_opendir runh Z).
 
   (* no file is written or deleted while a caching client holds a result under the key of a path that names it *)
   Definition write_safe (e : event) : Prop :=
@@ -528,21 +551,27 @@ Section PathKeyed.
     destruct (Nat.eqb_spec q p); [contradiction|reflexivity].
   Qed.
 
+  (* the requested paths name the same file from every directory (true of absolute paths): the cache key is the
+     path AS GIVEN, so a relative name cached in one directory would be served in another *)
+  Definition cwd_independent (ps : list nat) : Prop := forall p, In p ps -> forall d, resolve d p = resolve DSrc p.
+
   Lemma step_refines ps fixed st o :
-    inj_on ps -> fresh ps st -> (forall ci p, o = Get ci p -> In p ps) ->
+    inj_on ps -> cwd_independent ps -> fresh ps st -> (forall ci p, o = Get ci p -> In p ps) ->
     write_safe (mkEvent st o (fst (step fixed st o)) (snd (step fixed st o))) ->
-    resolves_same (mkEvent st o (fst (step fixed st o)) (snd (step fixed st o))) ->
     refines_event (mkEvent st o (fst (step fixed st o)) (snd (step fixed st o)))
     /\ fresh ps (fst (step fixed st o)).
   Proof.
-    intros Hinj Hfr Hin Hws [Hrg Hrh]. simpl in Hrg, Hrh. unfold code_opendir in Hrg, Hrh. destruct o as [ci p|p c|p|d|a|b|p|k p];
+    intros Hinj Hci Hfr Hin Hws.
+    assert (Hrg : forall ci p, o = Get ci p -> resolve (cwd st) p = resolve DSrc p) by (intros ci p E; apply Hci; eapply Hin; eauto).
+    assert (Hrh : forall k p, o = HipGet k p -> resolve (cwd st) p = resolve (cwd st) p) by reflexivity.
+    destruct o as [ci p|p c|p|d|a|b|p|k p];
       [simpl|simpl|simpl|simpl|simpl|simpl|change (step fixed st (Cli p)) with (cli_run st p)
        |change (step fixed st (HipGet k p)) with (hip_get st k p)].
     - (* Get *)
       specialize (Hin ci p eq_refl). specialize (Hrg ci p eq_refl).
-      destruct (client_get_cases C R run hash resolve code_opendir Z Z.eqb (path_key hash) fixed st ci p)
+      destruct (client_get_cases C R run hash resolve caller_opendir Z Z.eqb (path_key hash) fixed st ci p)
         as [[_ E]|[(cl & r & Hn & Hc & Hl & E)|(cl & Hn & Hmiss & [[He E]|(r & He & E)])]];
-        unfold path_key, code_opendir in *; rewrite E; simpl.
+        unfold path_key, caller_opendir in *; rewrite E; simpl.
       + split; [|exact Hfr]. intros orc q r h _ H. discriminate.
       + split; [|exact Hfr]. intros orc q r' h Hq H. simpl in Hq, H |- *. inversion Hq; subst orc q. inversion H; subst r'.
         destruct (Hfr cl (nth_error_In _ _ Hn) Hc _ _ Hl) as (p' & Hp' & Hh & Hex).
@@ -551,12 +580,12 @@ Section PathKeyed.
         destruct fixed; [exact Hfr|]. eapply fresh_same; [| |exact Hfr]; reflexivity.
       + split.
         * intros orc q r' h Hq H. simpl in Hq, H |- *. inversion Hq; subst orc q. inversion H; subst r'.
-          rewrite Hrg. exact He.
+          exact He.
         * intros cl0 Hin0 Hc0 k r0 Hl0. simpl in Hin0 |- *.
           apply replace_nth_In in Hin0 as [E0|Hin0].
           -- destruct (caching cl) eqn:Hc.
              ++ subst cl0. simpl in Hl0. destruct (Z.eqb_spec k (hash p)) as [Ek|Nk].
-                ** inversion Hl0; subst r0. exists p. auto.
+                ** inversion Hl0; subst r0. exists p. repeat split; auto. rewrite <- Hrg. exact He.
                 ** exact (Hfr cl (nth_error_In _ _ Hn) Hc k r0 Hl0).
              ++ subst cl0. congruence.
           -- exact (Hfr cl0 Hin0 Hc0 k r0 Hl0).
@@ -582,17 +611,17 @@ Section PathKeyed.
     - (* Cli *)
       split; [apply cli_refines|]. rewrite cli_run_spec. eapply fresh_same; [| |exact Hfr]; reflexivity.
     - (* HipGet *)
-      split; [apply hip_refines; now apply Hrh|]. rewrite hip_get_spec. exact Hfr.
+      split; [apply hip_refines; reflexivity|]. rewrite hip_get_spec. exact Hfr.
   Qed.
 
-  Theorem trace_refines ps fixed : inj_on ps -> forall ops st,
+  Theorem trace_refines ps fixed : inj_on ps -> cwd_independent ps -> forall ops st,
     fresh ps st -> (forall ci p, In (Get ci p) ops -> In p ps) ->
-    Forall write_safe (trace fixed st ops) -> Forall resolves_same (trace fixed st ops) ->
+    Forall write_safe (trace fixed st ops) ->
     Forall refines_event (trace fixed st ops).
   Proof.
-    intros Hinj. induction ops as [|o ops IH]; intros st Hfr Hin Hws Hrs; [constructor|].
-    rewrite trace_cons in *. inversion Hws as [|e l Hw1 Hw2]; subst. inversion Hrs as [|e l Hr1 Hr2]; subst.
-    destruct (step_refines ps fixed st o Hinj Hfr) as [H1 H2]; auto.
+    intros Hinj Hci. induction ops as [|o ops IH]; intros st Hfr Hin Hws; [constructor|].
+    rewrite trace_cons in *. inversion Hws as [|e l Hw1 Hw2]; subst.
+    destruct (step_refines ps fixed st o Hinj Hci Hfr) as [H1 H2]; auto.
     - intros ci p ->. apply (Hin ci p). now left.
     - constructor; [exact H1|]. apply IH; auto. intros ci p H. apply (Hin ci p). now right.
   Qed.
@@ -600,16 +629,16 @@ Section PathKeyed.
   Lemma init_fresh ps d a f : fresh ps (init d a f).
   Proof. intros cl []. Qed.
 
-  Theorem trace_refines_init ps fixed : inj_on ps -> forall ops d a f,
+  Theorem trace_refines_init ps fixed : inj_on ps -> cwd_independent ps -> forall ops d a f,
     (forall ci p, In (Get ci p) ops -> In p ps) ->
-    Forall write_safe (trace fixed (init d a f) ops) -> Forall resolves_same (trace fixed (init d a f) ops) ->
+    Forall write_safe (trace fixed (init d a f) ops) ->
     Forall refines_event (trace fixed (init d a f) ops).
-  Proof. intros Hinj ops d a f. apply trace_refines; auto. apply init_fresh. Qed.
+  Proof. intros Hinj Hci ops d a f. apply trace_refines; auto. apply init_fresh. Qed.
 
   (* ---------- the result is a function of the content, whatever the history ---------- *)
   Definition safe_history (fixed : bool) (ps : list nat) (st : state) (ops : list (op C)) : Prop :=
-    inj_on ps /\ fresh ps st /\ (forall ci p, In (Get ci p) ops -> In p ps)
-    /\ Forall write_safe (trace fixed st ops) /\ Forall resolves_same (trace fixed st ops).
+    inj_on ps /\ cwd_independent ps /\ fresh ps st /\ (forall ci p, In (Get ci p) ops -> In p ps)
+    /\ Forall write_safe (trace fixed st ops).
 
   Theorem result_function_of_content fixed1 fixed2 ps1 ps2 st1 st2 ops1 ops2 e1 e2 orc p1 p2 r1 r2 h1 h2 :
     safe_history fixed1 ps1 st1 ops1 -> safe_history fixed2 ps2 st2 ops2 ->
@@ -620,9 +649,9 @@ Section PathKeyed.
       = fs_lookup (resolve (cwd (before e2)) p2) (files (before e2)) ->
     r1 = r2.
   Proof.
-    intros (I1 & F1 & G1 & W1 & S1) (I2 & F2 & G2 & W2 & S2) In1 In2 Q1 Q2 O1 O2 Hf.
-    pose proof (trace_refines ps1 fixed1 I1 ops1 st1 F1 G1 W1 S1) as T1.
-    pose proof (trace_refines ps2 fixed2 I2 ops2 st2 F2 G2 W2 S2) as T2.
+    intros (I1 & S1 & F1 & G1 & W1) (I2 & S2 & F2 & G2 & W2) In1 In2 Q1 Q2 O1 O2 Hf.
+    pose proof (trace_refines ps1 fixed1 I1 S1 ops1 st1 F1 G1 W1) as T1.
+    pose proof (trace_refines ps2 fixed2 I2 S2 ops2 st2 F2 G2 W2) as T2.
     rewrite Forall_forall in T1, T2.
     pose proof (T1 e1 In1 orc p1 r1 h1 Q1 O1) as E1. pose proof (T2 e2 In2 orc p2 r2 h2 Q2 O2) as E2.
     unfold Process.expected_with in E1, E2. rewrite Hf in E1. rewrite E1 in E2. now inversion E2.
@@ -665,7 +694,7 @@ Qed.
 
 (* a hash collision between two requested paths has the same effect (why [inj_on] is a hypothesis) *)
 Lemma cache_collision_witness :
-  exists e p r h, In e (trace nat nat (crun [0; 1]) (fun _ => 0%Z) (cresolve []) code_opendir (crunh []) Z Z.eqb (path_key (fun _ => 0%Z))
+  exists e p r h, In e (trace nat nat (crun [0; 1]) (fun _ => 0%Z) (cresolve []) caller_opendir (crunh []) Z Z.eqb (path_key (fun _ => 0%Z))
                           true (init (DUser 0) [] [])
                           [NewClient true; Write 0 0; Write 1 1; Get 0 0; Get 0 1])
             /\ eop e = Get 0 p /\ eout e = Returned r h
@@ -684,13 +713,35 @@ Definition rel_cfg : cfg :=
 Definition witness_rel : list (op nat) := [NewClient false; Write 60 0; Get 0 100].
 
 Lemma relative_request_refuted : forall fixed,
-  exists e r h, In e (ptrace rel_cfg fixed (DUser 0) [] witness_rel)
+  exists e r h, In e (ptrace_with pinned_opendir rel_cfg fixed (DUser 0) [] witness_rel)
             /\ eop e = Get 0 100 /\ eout e = Returned r h
             /\ expected nat nat (crun [0; 1]) (files (before e)) (cresolve (g_rt rel_cfg) (cwd (before e)) 100) = Some 0
             /\ r = 1.
 Proof.
   intros fixed. eexists. exists 1, false. split.
   - do 2 right. left. reflexivity.
+  - destruct fixed; vm_compute; repeat split.
+Qed.
+
+(* the current clients (path opened in the caller's directory) give the caller's content on that history *)
+Lemma relative_request_current :
+  map (@eout nat nat Z) (ptrace rel_cfg true (DUser 0) [] witness_rel) = [Done; Done; Returned 0 false].
+Proof. vm_compute. reflexivity. Qed.
+
+(* ... but the cache key is still the path AS GIVEN: the same relative name requested from two directories through one
+   caching client is served from the cache in the second directory (why [cwd_independent] is a hypothesis) *)
+Definition witness_rel_shared : list (op nat) :=
+  [NewClient true; Write 60 0; Write 61 1; Get 0 100; Chdir (DUser 1); Get 0 100].
+Definition rel2_cfg : cfg := mkCfg [0; 1] [] [(DUser 0, 100, 60); (DUser 1, 100, 61)] [].
+
+Lemma cache_relative_shared_refuted : forall fixed,
+  exists e r h, In e (ptrace rel2_cfg fixed (DUser 0) [] witness_rel_shared)
+            /\ eop e = Get 0 100 /\ eout e = Returned r h /\ cwd (before e) = DUser 1
+            /\ expected nat nat (crun [0; 1]) (files (before e)) (cresolve (g_rt rel2_cfg) (cwd (before e)) 100) = Some 1
+            /\ r = 0.
+Proof.
+  intros fixed. eexists. exists 0, true. split.
+  - do 5 right. left. reflexivity.
   - destruct fixed; vm_compute; repeat split.
 Qed.
 
